@@ -92,3 +92,16 @@ def schema_definitions_keyed_by_bare_name(v):
     dataclass) with the same name share one definition; the later one wins."""
     f = v.get("facts", {})
     return f.get("kind") in ("homonyms", "generic-twice") and f.get("all_refs") is True
+
+
+HOMONYM_KINDS = ("local_dc", "local_enum", "functional_nt", "functional_td", "make_dataclass", "rebound")
+
+
+@predicate
+def class_referenced_by_qualified_name_not_identity(v):
+    """F13: generated code refers to a schema class by its rendered name (`module.qualname`, or the sanitised
+    local name registered with setdefault) instead of the class object: distinct classes with the same rendered
+    name (two locals of one factory, functional NamedTuple/TypedDict/make_dataclass homonyms, a re-bound module
+    attribute) or classes whose name is not bound in their module resolve to the wrong class or to nothing."""
+    f = v.get("facts", {})
+    return f.get("monitor") in ("identity", "closure") and f.get("kind") in HOMONYM_KINDS
